@@ -371,7 +371,9 @@ class Check:
             ev['coverage']['exhaustive'] = self.exhaustive
         ev['coverage'].update(self.notes)
         evdir = Path(os.environ.get('VERIF_EVIDENCE_DIR') or VERIF / 'evidence')     # seed tests write elsewhere
-        evdir.mkdir(exist_ok=True)
+        if self.prop.startswith('X'):
+            evdir = evdir / 'extra'      # growth modules beyond the listed properties (not in MANIFEST.checks)
+        evdir.mkdir(parents=True, exist_ok=True)
         (evdir / f'{self.prop}.json').write_text(json.dumps(ev, indent=1, default=str) + '\n')
         for e in self.known.entries:
             if e.get('property') == self.prop and e.get('status') == 'open' and e['id'] in self.known_hit:
